@@ -396,7 +396,7 @@ PROPS["C10"] = dict(
           "thread page holds at every loaded position the item the world puts there. Non-trivial: >= 2 pages and a call that crosses a "
           "page boundary while delivering / at least five keys. Distinct = distinct (chain, program) / stimulus."),
     units=[
-        rapid("Prop", "TestProp", 8000, 400000, config_toml=_NET + "cache_size = 16\n"),
+        rapid("Prop", "TestProp", 8000, 400000, config_toml="[network]\ntimeout_seconds = 1\ncache_size = 16\n"),
         rapid("UIPaging", "TestUIPaging", 240, 8000, shards=(8, 16), config_toml=_NET + "cache_size = 16\n", timeout=dict(quick=600, thorough=3000),
               retry_confirm=3, trust_unconfirmed=r"holds .* at position"),
     ],
